@@ -113,6 +113,14 @@ pub fn op_any<A: HC, const K: usize, S: HS>(op: &str, a: &KArgs<A>) -> R<String>
             match a.pairing.as_str() {
                 "slice" => format!("{}", PartialEq::<SeqSlice<A>>::eq(&k, x)),
                 "refslice" => format!("{}", k == x),
+                // the sequence on the LEFT (`slice == kmer`, `&slice == kmer`, `seq == kmer`): these impls do not exist in the
+                // unchanged crate; when a tree provides them they must agree with the k-mer-on-the-left spelling
+                "rslice" => format!("{}", crate::probe_eq!(x, &k, || PartialEq::<SeqSlice<A>>::eq(&k, x))),
+                "rrefslice" => format!("{}", crate::probe_eq!(&x, &k, || k == x)),
+                "rseq" => {
+                    let o: Seq<A> = x.to_owned();
+                    format!("{}", crate::probe_eq!(&o, &k, || k == x))
+                }
                 // Kmer == SeqArray<A, K, 1> / &SeqArray<A, K, 1> (hand-built array of exactly K symbols in one word)
                 "arr" | "refarr" => {
                     if x.len() != K || K * A::BITS as usize > 64 {
@@ -321,6 +329,17 @@ pub fn op_kmers_adapt<A: HC, const K: usize>(ad: &str, arg: usize, x: &SeqSlice<
         "take" => it.take(arg).collect(),
         "nthnext" => { let mut it = it; let _ = it.nth(arg); it.collect() }
         "count" => return Ok(it.count().to_string()),
+        // optional capabilities (DoubleEndedIterator / ExactSizeIterator), probed: see probe.rs
+        "rev" | "len" => {
+            let mut it = it;
+            for _ in 0..arg {
+                let _ = it.next();
+            }
+            if ad == "len" {
+                return Ok(crate::probe_len!(it).to_string());
+            }
+            crate::probe_rev!(it)
+        }
         "lastafter" | "countafter" | "foldafter" | "nthhuge" => {
             let mut it = it;
             for _ in 0..arg {
